@@ -2,6 +2,7 @@ package main
 
 import (
 	"fmt"
+	"math/rand"
 	"os"
 	"sort"
 	"strings"
@@ -76,4 +77,78 @@ func TestC02Export(t *testing.T) {
 	}
 	sx, err := ExportProgram(prog)
 	fmt.Println(sx.String(), err)
+}
+
+// TestC02Verdict prints, for every program of $DBG_SRC (separated by a line "===="), the parser's verdict,
+// Static.wt's verdict on the exported tree and the evaluator's outcome.
+func TestC02Verdict(t *testing.T) {
+	if os.Getenv("DBG_SRC") == "" {
+		t.Skip("DBG_SRC not set")
+	}
+	b, _ := os.ReadFile(os.Getenv("DBG_SRC"))
+	model, err := StartModel("static")
+	if err != nil {
+		t.Fatal(err)
+	}
+	defer model.Close()
+	for _, src := range strings.Split(string(b), "\n====\n") {
+		fmt.Printf("---- %q\n", src)
+		prog, perr := safeParse(src)
+		if perr != nil {
+			fmt.Println("  parser:", strings.ReplaceAll(perr.Error(), "\n", " | "))
+			continue
+		}
+		sx, err := ExportProgram(prog)
+		if err != nil {
+			fmt.Println("  unexportable:", err)
+			continue
+		}
+		if os.Getenv("DBG_TREE") != "" {
+			fmt.Println("  tree:", sx.String())
+		}
+		ans, err := model.Ask(sx.String())
+		out := RunEvy(src, RunOpts{YieldBudget: 200000, NoSummary: true, Input: []string{"1", "abc"}})
+		fmt.Printf("  parser: accepted; Static: %s %v; run: %s %q %s%s\n", ans, err, out.Class, out.Prints, out.GoPanic, out.ErrText)
+	}
+}
+
+// TestSwtOutside prints generated / corpus programs that wt accepts and the specification-driven checker swt does not.
+func TestSwtOutside(t *testing.T) {
+	if os.Getenv("DBG_SWT") == "" {
+		t.Skip("DBG_SWT not set")
+	}
+	model, err := StartModel("statictypes")
+	if err != nil {
+		t.Fatal(err)
+	}
+	defer model.Close()
+	rng := rand.New(rand.NewSource(7))
+	progs := CorpusPrograms()
+	for i := 0; i < 300; i++ {
+		src, _, _ := GenProgram(rng, GenOpts{MaxStmts: 5, MaxDepth: 2, Funcs: i%2 == 0, Handlers: i%3 == 0, Specials: true, MapLitPure: true})
+		progs = append(progs, src)
+	}
+	in, out, shown := 0, 0, 0
+	for _, src := range progs {
+		prog, perr := safeParse(src)
+		if perr != nil {
+			continue
+		}
+		sx, err := ExportProgram(prog)
+		if err != nil {
+			continue
+		}
+		ans, _ := model.Ask(sx.String())
+		switch {
+		case strings.HasPrefix(ans, "(swt true"):
+			in++
+		case strings.HasPrefix(ans, "(swt false true"):
+			out++
+			if shown < 25 && len(src) < 400 {
+				shown++
+				fmt.Printf("---- outside:\n%s\n", src)
+			}
+		}
+	}
+	fmt.Println("inside", in, "outside (wt accepts)", out)
 }
